@@ -43,23 +43,19 @@ func buildC06(tier string) *core.Plan {
 	fullA := gen.Alphabet{Scalars: strScalars(c06Tokens, nil, 1, true), Keys: c06Tokens, MaxList: 3, MaxMap: 2}
 	smallA := gen.Alphabet{Scalars: strScalars(c06Small, nil, 1), Keys: c06Small[:9], MaxList: 3, MaxMap: 3}
 
-	var plain, full, small []any
-	lazy := func() {
-		if plain == nil {
-			plain = gen.Trees(plainA, nPlain)
-			full = gen.Trees(fullA, nFull)
-			if nSmall > 0 {
-				small = gen.Trees(smallA, nSmall)
-			}
-		}
+	// the large sets are addressed by index (gen.Set), not held in memory
+	plainS := gen.NewSet(plainA, nPlain)
+	full := gen.Trees(fullA, nFull)
+	var smallS *gen.Set
+	if nSmall > 0 {
+		smallS = gen.NewSet(smallA, nSmall)
 	}
-	lazy()
 
 	// (1) identity on plain data
-	identity := core.Space{Name: "plain-identity", N: int64(len(plain)),
-		Desc: func(i int64) any { return map[string]any{"doc": plain[i]} },
+	identity := core.Space{Name: "plain-identity", N: plainS.Len(),
+		Desc: func(i int64) any { return map[string]any{"doc": plainS.At(i)} },
 		Run: func(c *core.Ctx, i int64) {
-			d := plain[i]
+			d := plainS.At(i)
 			c.Eval()
 			c.Trans(2)
 			p := newParser()
@@ -74,9 +70,9 @@ func buildC06(tier string) *core.Plan {
 			}
 		}}
 
-	escapeRun := func(set []any) func(c *core.Ctx, i int64) {
+	escapeRun := func(at func(int64) any) func(c *core.Ctx, i int64) {
 		return func(c *core.Ctx, i int64) {
-			d := set[i]
+			d := at(i)
 			dd := doubleDollar(d)
 			c.Eval()
 			c.Trans(2)
@@ -126,12 +122,12 @@ func buildC06(tier string) *core.Plan {
 	}
 	escFull := core.Space{Name: "escape-full-alphabet", N: int64(len(full)),
 		Desc: func(i int64) any { return map[string]any{"doc": full[i], "doubled": doubleDollar(full[i])} },
-		Run:  escapeRun(full)}
+		Run:  escapeRun(func(i int64) any { return full[i] })}
 	spaces := []core.Space{identity, escFull}
 	if nSmall > 0 {
-		spaces = append(spaces, core.Space{Name: "escape-reduced-alphabet-deeper", N: int64(len(small)),
-			Desc: func(i int64) any { return map[string]any{"doc": small[i], "doubled": doubleDollar(small[i])} },
-			Run:  escapeRun(small)})
+		spaces = append(spaces, core.Space{Name: "escape-reduced-alphabet-deeper", N: smallS.Len(),
+			Desc: func(i int64) any { return map[string]any{"doc": smallS.At(i), "doubled": doubleDollar(smallS.At(i))} },
+			Run:  escapeRun(smallS.At)})
 	}
 	// files: JSON documents through MergeFileLayers and a filename chain
 	fileSet := gen.Trees(fullA, 2)
